@@ -33,6 +33,15 @@ class C04(ProgProp):
             for c in clients:
                 ls.append(f'client {mc["port"]} {c}')
             ls += ['bind', 'final 0']
+            # the component reacts: while it handles the release (a plain in-event, the claim) it raises an out-event
+            # before the in-event returns
+            if outs and rng.random() < 0.6:
+                ls.append(f'react {mc["port"]} {mc["release"]} {mc["port"]} {rng.choice(outs)["name"]}')
+                others = [e for e in ins if e['name'] not in (mc['claim'], mc['release'])]
+                if others and rng.random() < 0.5:
+                    ls.append(f'react {mc["port"]} {rng.choice(others)["name"]} {mc["port"]} {rng.choice(outs)["name"]}')
+                if rng.random() < 0.3:
+                    ls.append(f'react {mc["port"]} {mc["claim"]} {mc["port"]} {rng.choice(outs)["name"]}')
             for _i in range(40):
                 r = rng.random()
                 c = rng.choice(clients)
@@ -75,11 +84,16 @@ class C04(ProgProp):
         foreign_release_seen = False
         failed = []
         known = []
+        reactions = {}
         for op, pre, term, post in segs:
             t = op.split(' ')
             if t[0] == 'world':
                 holder = None
                 foreign_release_seen = False
+                reactions = {}
+                continue
+            if t[0] == 'react':
+                reactions[(t[1], t[2])] = (t[3], t[4])
                 continue
             if t[0] == 'call' and term and term.startswith('ret'):
                 port, cid = t[1].split('@')
@@ -87,6 +101,16 @@ class C04(ProgProp):
                 fw = [o for o in obs if o['who'] == 'comp' and o['port'] == port and o['ev'] == t[2]]
                 if len(fw) != 1 or fw[0]['disp'] != 1:
                     failed.append(f'{op}: client in-event not forwarded exactly once through the dispatcher {fw}')
+                # out-events the component raises while it handles this in-event: at that moment the holder is
+                # still the holder as of before this call (a claim is not granted yet, a release not completed)
+                nested = [o['who'] for o in obs if o['who'].startswith('env')]
+                want_nested = ([f'env@{holder}'] if holder is not None else []) if (port, t[2]) in reactions and port == mc['port'] else []
+                if nested != want_nested:
+                    msg = f'{op}: out-event raised by the component while handling the call was delivered to {nested}, specification says {want_nested}'
+                    if foreign_release_seen and nested == []:
+                        known.append(('D-9', msg))
+                    else:
+                        failed.append(msg)
                 ev = next(e for e in itf['events'] if e['name'] == t[2])
                 args = [int(x) for x in t[3:3 + len(ev['formals'])]] + [0] * max(0, len(ev['formals']) - len(t[3:]))
                 from harness.progprop import rewrite_args
